@@ -72,21 +72,53 @@ class Graph:
                         yield self.path[u] + [e, o]
 
 
+def stratum(h):
+    """(last cache-filling operation before the edit, edit, observation) of an invalidation triple."""
+    fills = [op_str(o) for o in h[:-2] if o['op'] in ('Solve', 'ReadVars')]
+    return (fills[-1] if fills else '-', op_str(h[-2]), op_str(h[-1]))
+
+
+def stratified(hists, k, rng, key=stratum, extra=0.4):
+    """One seeded-random history of every stratum (so the dimensions the key leaves out - which objective,
+    which constraints are present - vary across strata), then a seeded random fill: up to k histories, and at
+    least `extra` x the number of strata on top."""
+    groups = {}
+    for h in hists:
+        groups.setdefault(key(h), []).append(h)
+    out = [rng.choice(groups[s]) for s in sorted(groups)]
+    chosen = set(map(id, out))
+    rest = [h for h in hists if id(h) not in chosen]
+    n = max(k - len(out), int(extra * len(groups)))
+    if rest and n > 0:
+        out += rng.sample(rest, min(n, len(rest)))
+    return out, len(groups)
+
+
 def parse_op(lab):
     name = lab.split('(')[0]
     args = tlaparse.parse_value('<<' + lab[len(name) + 1:-1] + '>>') if '(' in lab else []
     if name == 'SolveBegin':
         return {'op': 'Solve', 'm': args[0], 'strict': args[1]}
+    if name == 'SolveBeginOpts':
+        o = {'op': 'Solve', 'm': args[0], 'strict': args[1]}
+        if args[2] != {'useHess': True, 'x0': False, 'tol': False, 'maxiter': False}:
+            o['opts'] = args[2]
+        return o
     if name == 'SetObjective':
         return {'op': 'SetObjective', 'obj': args[0], 'sense': args[1]}
     if name == 'SubjectTo':
         return {'op': 'SubjectTo', 'cons': args[0]}
+    if name in ('SubjectTo1', 'SubjectTo2'):
+        return {'op': 'SubjectTo', 'cons': list(args)}
+    if name not in ('SetBound', 'SetParam', 'ReadVars'):
+        raise ValueError('unlabelled edge between idle states: %r (every API-level action of Solve.tla must be a named action)' % lab)
     return {'op': name}
 
 
 def op_str(o):
     if o['op'] == 'Solve':
-        return 'solve(%s%s)' % (o['m'], ',strict' if o['strict'] else '')
+        extra = ''.join(',%s=%s' % (k, v) for k, v in sorted(o.get('opts', {}).items()))
+        return 'solve(%s%s%s)' % (o['m'], ',strict' if o['strict'] else '', extra)
     if o['op'] == 'SetObjective':
         return '%s(obj%d)' % (o['sense'], o['obj']['id'])
     if o['op'] == 'SubjectTo':
